@@ -629,4 +629,80 @@ theorem eq_linear_scan {r : Recs} {sf : SymFile} (hb : build r = .ok sf) (hno : 
             rw [hcut]
             simp
 
+/-! ## 6. building the tables never fails (C08), restated for whole files -/
+
+/-- `SymbolParser::finish` cannot panic on a file without STACK WIN records: every
+    `into_rangemap_safe(..)` ends in an `unwrap` that C08 proves safe. (With STACK WIN records the
+    same holds by C08's `win_repair_no_panic`; `winTable` is C08's `win4`/`win0` builder.) -/
+theorem build_ok (r : Recs) (h4 : r.win4 = []) (h0 : r.win0 = []) : ∃ sf, build r = .ok sf := by
+  unfold build
+  simp only [finishAll_ok, safeP_ok _ (funcInput_wf _), h4, h0]
+  have : winTable [] = .ok (safeVecP []) := by
+    unfold winTable
+    simp only [insertWinAll, List.reverse_nil, List.map_nil]
+    exact safeP_ok [] (by intro e he; cases he)
+  simp only [this]
+  exact ⟨_, rfl⟩
+
+/-! ## non-vacuity: a concrete file satisfying every hypothesis, and the theorems applied to it -/
+
+/-- the file of the repository's `test_nested_inlines` (names abbreviated to numbers):
+    `FUNC 1000 30 10 outer`, `INLINE 0 60 15 2 1000 20`, `INLINE 1 12 4 3 1000 10`,
+    `INLINE 1 17 4 1 1010 10`, lines `1000 10 42 7`, `1010 10 52 8`, `1020 10 62 15`,
+    plus a PUBLIC before (0x800) and one after the FUNC (0x1038) -/
+def nested : Recs :=
+  { files := [(15, [15]), (4, [4]), (7, [7]), (8, [8])],
+    origins := [(1, [101]), (2, [102]), (3, [103])],
+    pubs := [⟨0x800, [200], 0⟩, ⟨0x1038, [201], 4⟩],
+    funcs := [⟨0x1000, 0x30, 0x10, [100],
+      [⟨0x1000, 0x10, 7, 42⟩, ⟨0x1010, 0x10, 8, 52⟩, ⟨0x1020, 0x10, 15, 62⟩],
+      [⟨0, 0x1000, 0x20, 15, 60, 2⟩, ⟨1, 0x1000, 0x10, 4, 12, 3⟩, ⟨1, 0x1010, 0x10, 4, 17, 1⟩]⟩] }
+
+theorem nested_nonoverlapping : NonOverlapping nested := by
+  refine ⟨by simp [nested], ?_, ?_⟩
+  · intro f hf
+    simp only [nested, List.mem_singleton] at hf
+    subst hf
+    simp only [List.pairwise_cons, List.mem_cons, List.not_mem_nil, or_false, forall_eq_or_imp,
+      forall_eq, List.Pairwise.nil, and_true, false_imp_iff, implies_true]
+    simp [mkRangeLine, U64MAX, RDisjoint]
+  · intro f hf
+    simp only [nested, List.mem_singleton] at hf
+    subst hf
+    decide
+
+example : ∃ sf, build nested = .ok sf := build_ok nested rfl rfl
+
+/-- at `0x1000 + base`: `outer @ file15:60 → mid @ file4:12 → inner_1 @ file7:42`, as in the
+    repository's test — here for EVERY answer `fill_symbol` can give (and it gives one) -/
+example (sf : SymFile) (hb : build nested = .ok sf) :
+    ∃ fr, fillSymbol sf 0x7000 0x8000 = .ok fr ∧
+      fr.noPsize = { fn := some ([100], 0x8000, 0), src := some ([15], 60, 0x8000),
+                     inl := [⟨[102], some [4], some 12⟩, ⟨[103], some [7], some 42⟩] } := by
+  obtain ⟨fr, hfr⟩ := fill_no_panic hb 0x7000 0x8000 (by decide)
+    (by intro f hf; simp only [nested, List.mem_singleton] at hf; subst hf; decide)
+  refine ⟨fr, hfr, ?_⟩
+  rw [eq_linear_scan hb nested_nonoverlapping hfr]
+  decide
+
+/-- PUBLIC fallback on the same file: below the FUNC the PUBLIC at 0x800 is reported; just after
+    the FUNC it is cut off (the FUNC at 0x1000 starts between it and the address) and nothing is
+    reported; from 0x1038 on the second PUBLIC is reported -/
+example (sf : SymFile) (hb : build nested = .ok sf) (fr1 fr2 fr3 : Frame)
+    (h1 : fillSymbol sf 0 0x900 = .ok fr1) (h2 : fillSymbol sf 0 0x1034 = .ok fr2)
+    (h3 : fillSymbol sf 0 0x1040 = .ok fr3) :
+    fr1.noPsize = { fn := some ([200], 0x800, 0) } ∧ fr2.noPsize = {} ∧
+    fr3.noPsize = { fn := some ([201], 0x1038, 0) } := by
+  rw [eq_linear_scan hb nested_nonoverlapping h1, eq_linear_scan hb nested_nonoverlapping h2,
+    eq_linear_scan hb nested_nonoverlapping h3]
+  decide
+
+/-- the hypotheses of `public_rule`/`func_covers`/`line_covers`/`inline_chain` are those of the
+    examples above (a built file and an answer); `frames_innermost_first` on the same file: -/
+example (sf : SymFile) (fr' : Frame) (h : fillSourceLineInfo sf 0x7000 0x2000 0x8000 = .ok fr') :
+    ∃ fr, fillSymbol sf 0x7000 0x8000 = .ok fr ∧ fr'.inl = fr.inl.reverse := by
+  rcases frames_innermost_first sf _ _ _ fr' h with ⟨_, hn⟩ | ⟨fr, h1, _, _, h2, _⟩
+  · exact absurd (by decide) hn
+  · exact ⟨fr, h1, h2⟩
+
 end MdModel.Symbolize
